@@ -318,6 +318,18 @@ seed("C15-r3-2", "C15", "fractional extra_prec_multiplier truncated before it is
 seed("C15-r3-3", "C15", "float16 evaluated in a 24-bit context and rounded a second time", "float16, default settings, the handful of inputs whose value sits next to an 11-bit tie (exp 2, log 1, arctan 3, arcsinh 2 inputs)", "C15 quick: backend-float16-default-result",
      first_result="missed (HELD): transcendental functions were judged only with >= 2p extra bits", strengthened="exp, log, arctan, arcsinh, sqrt at default settings on every normal float16 input (exhaustive)")
 
+# round 4 (C16 - C19 only, launched in the last hours; agents had 75 minutes)
+seed("C16-r4-1", "C16", "polynomial.add through zip_longest ignores reverse", "reverse=True and operands of different length (or a scalar operand)", "C16 quick: add")
+seed("C16-r4-2", "C16", "polynomial.rpolynomial breaks out of its loop at a zero ratio", "a ratio list with a zero at index >= 1 (ratio form of a polynomial with a vanishing leading coefficient)", "C16 quick: poly.rpolynomial-value",
+     first_result="missed (HELD): ratio form was exercised for all-nonzero coefficient lists only", strengthened="ratio lists with one or two zero ratios at random positions (poly and fpa rpolynomial, both directions), and asrpolynomial of a list with a vanishing leading coefficient")
+seed("C16-r4-3", "C16", "fpa.horner strips 'vanishing highest order terms' before the reverse split", "reverse=True (the default) and trailing zero coefficients", "C16 quick: fpa.horner-value")
+seed("C17-r4-1", "C17", "trig reduction on |x| with the sign restored on k and r but not on the tail word", "x < 0, |x| >= pi/4", "C17 quick: trig:k-range / trig:reconstruction")
+seed("C17-r4-2", "C17", "float64 copy of 2/pi rounded to 1064 instead of 1074 bits", "float64, huge |x| whose reduction reaches the last words", "C17 quick: trig:reconstruction (not the known finding: the error is above its signature)")
+seed("C18-r4-1", "C18", "'nothing to change' fast path also skips the restore on exit", "a context that requests the state already in effect, body changes MXCSR", "C18 quick: exit-does-not-restore*")
+seed("C18-r4-2", "C18", "re-entrant context objects through a depth counter (only the outermost exit restores)", "one context object entered while active", "C18 quick: exit-does-not-restore*")
+seed("C18-r4-3", "C18", "rounding-mode table deduplicated with the up / down encodings exchanged", "round='upward' / 'downward'", "C18 quick: enter-changes-unrequested-bits*")
+seed("C19-r4-1", "C19", "real_samples: upper clamp of the negative share uses num instead of rest", "user bounds straddling zero with few positive values available", "C19 quick: real_samples-exception / size sites")
+
 # seeds whose original patch stopped applying after a later "fix:" commit touched the same lines: the same change re-made by hand on the current HEAD
 REBASED = {"C11-1": "fix 981e64c (mul_dekker assume_fma + fix_overflow) rewrote the lines around the dropped abs()",
            "C09-1": "fix fbe2df5 (owners of joined reference names) added lines where the digest shortening was inserted",
